@@ -4,6 +4,8 @@ import (
 	"bytes"
 	"errors"
 	"fmt"
+	"reflect"
+	"runtime"
 	"sort"
 	"strconv"
 	"strings"
@@ -41,6 +43,8 @@ import (
 //                             depends on the schedule: the observation is always "ok")
 //   c15 wexit <c> <n>         wait until n forwarding routines have ended (hook forwarder-exit;
 //                             counted per process, so only for single-connection cases)
+//   c15 gc                    garbage collection in the server process; from then on the service tries to
+//                             allocate a new channel at the address of a closed and dropped one
 //   c15 alive                 a fresh connection streams one value and ends normally
 //
 // Every wait is bounded (c15wait); "timeout" is an observation.
@@ -72,7 +76,15 @@ type c15stream struct {
 type c15conn struct {
 	streams []*c15stream
 	calls   int
+	// addresses of channels the service has closed and dropped (no reference kept)
+	oldAddr map[uintptr]bool
+	spare   []chan *C15Val
 }
+
+// c15gcDone is set by the op `gc`: from then on a new channel is allocated, if
+// the allocator allows, at the address of a closed and collected one (a service
+// that closes and reopens topics meets this by chance).
+var c15gcDone bool
 
 type c15Service struct {
 	*onet.ServiceProcessor
@@ -106,7 +118,21 @@ func (s *c15Service) stream(m *C15Req) (chan *C15Val, chan bool, error) {
 		st := c.streams[m.Reuse]
 		return st.ch, st.stop, nil
 	}
-	st := &c15stream{ch: make(chan *C15Val), stop: make(chan bool)}
+	st := &c15stream{stop: make(chan bool)}
+	if c15gcDone && len(c.oldAddr) > 0 {
+		for i := 0; i < 200000 && st.ch == nil; i++ {
+			ch := make(chan *C15Val)
+			if c.oldAddr[reflect.ValueOf(ch).Pointer()] {
+				st.ch = ch
+			} else {
+				c.spare = append(c.spare, ch)
+			}
+		}
+		c.spare = nil
+	}
+	if st.ch == nil {
+		st.ch = make(chan *C15Val)
+	}
 	c.streams = append(c.streams, st)
 	return st.ch, st.stop, nil
 }
@@ -323,8 +349,11 @@ func (e *c15env) do(tk []string) string {
 					r = "timeout" // the channel was closed by svcclose: nothing can be emitted
 				}
 			}()
+			c15mu.Lock()
+			ch := st.ch
+			c15mu.Unlock()
 			select {
-			case st.ch <- &C15Val{Conn: string(c15tag(tk[2])), K: int64(k), V: int64(v)}:
+			case ch <- &C15Val{Conn: string(c15tag(tk[2])), K: int64(k), V: int64(v)}:
 			case <-time.After(c15wait):
 				r = "timeout"
 			}
@@ -346,9 +375,29 @@ func (e *c15env) do(tk []string) string {
 					r = "timeout"
 				}
 			}()
-			close(st.ch)
+			c15mu.Lock()
+			ch := st.ch
+			c15mu.Unlock()
+			close(ch)
+			// the service drops the closed channel: only its address is remembered
+			c15mu.Lock()
+			c := c15get(string(c15tag(tk[2])))
+			if c.oldAddr == nil {
+				c.oldAddr = map[uintptr]bool{}
+			}
+			c.oldAddr[reflect.ValueOf(ch).Pointer()] = true
+			st.ch = nil
+			c15mu.Unlock()
 		}()
 		return r
+	case len(tk) == 2 && tk[1] == "gc":
+		c15mu.Lock()
+		c15gcDone = true
+		c15mu.Unlock()
+		for i := 0; i < 5; i++ {
+			runtime.GC()
+		}
+		return "ok"
 	case len(tk) == 3 && tk[1] == "cread":
 		cl, ok := e.cl[tk[2]]
 		if !ok {
@@ -401,9 +450,12 @@ func (e *c15env) do(tk []string) string {
 		}
 		func() {
 			defer func() { recover() }()
+			c15mu.Lock()
+			ch := st.ch
+			c15mu.Unlock()
 			for i := 0; i < n; i++ {
 				select {
-				case st.ch <- &C15Val{Conn: string(c15tag(tk[2])), K: int64(k), V: int64(v + i)}:
+				case ch <- &C15Val{Conn: string(c15tag(tk[2])), K: int64(k), V: int64(v + i)}:
 				case <-time.After(150 * time.Millisecond):
 					return
 				}
@@ -753,6 +805,19 @@ func (g *c15g) revisit(c string, rounds, burst int) []string {
 	return append(ops, fmt.Sprintf("c15 svcclose %s %d", c, 1-first), "c15 cread "+c, "c15 wstop "+c+" 0", "c15 wstop "+c+" 1")
 }
 
+// the service closes a topic's channel and drops it, a garbage collection
+// runs, the client asks for a new topic: the new channel (possibly at the
+// address of the collected one) must get its own forwarder
+func (g *c15g) gcNewChannel(c string, n int) []string {
+	ops := []string{"c15 open " + c + " fresh", "c15 wstart " + c + " 0", "c15 csend " + c + " fresh", "c15 wstart " + c + " 1"}
+	ops = append(ops, g.values(c, 1, 1, 1)...)
+	ops = append(ops, g.values(c, 0, n, 1)...)
+	ops = append(ops, "c15 svcclose "+c+" 0", "c15 wexit "+c+" 1", "c15 gc", "c15 csend "+c+" fresh", "c15 wstart "+c+" 2")
+	ops = append(ops, g.values(c, 2, 1+n, 2)...)
+	ops = append(ops, g.values(c, 1, 1, 1)...)
+	return append(ops, "c15 svcclose "+c+" 1", "c15 svcclose "+c+" 2", "c15 cread "+c, "c15 wstop "+c+" 1", "c15 wstop "+c+" 2")
+}
+
 // the reader holds a further client message while the stream ends (race (c))
 func (g *c15g) readerRace(c string, p int, msg string) []string {
 	ops := []string{"c15 open " + c + " fresh", "c15 wstart " + c + " 0"}
@@ -873,6 +938,7 @@ func c15genCases(c *h.Ctx, yield func(*h.Case)) {
 			"c15 emit " + c15 + " 0 3", "c15 cread " + c15, "c15 svcclose " + c15 + " 0", "c15 svcclose " + c15 + " 1", "c15 cread " + c15}
 		emit("corpus:blocked-emit-revisit", ops)
 	}
+	emit("corpus:gc-new-channel", g.gcNewChannel("s0", 1))
 	emit("corpus:revisit", g.revisit("s0", 3, 4))
 	emit("corpus:inputs-overflow", g.inputsOverflow("s0", 1, 14, "close"))
 	emit("corpus:flood-after-leave", g.floodAfterLeave("s0", 1, 130, "drop"))
@@ -899,6 +965,7 @@ func c15genCases(c *h.Ctx, yield func(*h.Case)) {
 		emit("adapter-race", g.adapterRace("s0", r.Intn(4)))
 		emit("forwarder-race", g.forwarderRace("s0", r.Intn(4), how()))
 		if it%5 == 0 {
+			emit("gc-new-channel", g.gcNewChannel("s0", r.Intn(4)))
 			emit("inputs-overflow", g.inputsOverflow("s0", r.Intn(3), 11+r.Intn(12), how()))
 			emit("flood-after-leave", g.floodAfterLeave("s0", r.Intn(3), 105+r.Intn(60), how()))
 		}
